@@ -246,6 +246,10 @@ Q5_SKELETONS = {
     'thematic': 'a\n\n***\nb{}', 'table': '|a|b|\n|-|-|\n|c{}|d|', 'definition': '[l]: /u{}\n\n[l]', 'nested-quote': '> q{}\n> r\n\ns',
     'nested-list': '- i{}\n- j\n\nk', 'html': '<div>\nx{}\n</div>', 'interrupt': 'para{}\n# h\n> q\n- l', 'setext': 'Foo{}\n---\nbar',
     'ordered': '1. a{}\n2. b', 'two-defs': '[a]: /x\n[b]: /y{}\n\n[a] [b]',
+    # holes at the START of a line (second and later lines of the content: what decides whether a new block starts)
+    'ls-continuation': 'a\n{}b\nc', 'ls-after-blank': 'a\n\n{} b', 'ls-table-delim': 'a|b\n{}-|-\nc|d', 'ls-table-header': 'x\n\n{}a|b\n-|-',
+    'ls-fence-open': 'a\n{}``\nx\n```', 'ls-fence-close': '```\nx\n{}``\ny', 'ls-underline': 'a\n{}==\nb', 'ls-html': 'a\n\n{}div>\nx',
+    'ls-marker-run': 'a\n{}--\nb', 'ls-ordered': 'a\n\n{}. b\n\n2. c', 'ls-definition': 'a\n\n{}l]: /u\n\n[l]',
 }
 
 
